@@ -5,6 +5,7 @@ from vlib import coqterm as ct
 
 sys.path.insert(0, os.path.join(os.path.dirname(os.path.dirname(os.path.abspath(__file__))), "gen"))
 import tn
+import tnloops
 
 HEADER = "From Qib Require Import TN.TNCheck.\n"
 
@@ -689,7 +690,12 @@ def run(ctx):
                        "regenerated from symbolic_network.py and proved equal to what the model uses (C07_source_*, C08_source_*); PINNED by exact source text, "
                        "not translated: the loop skeleton of is_consistent, its pair-repetition test, as_einsum's first-occurrence rule, the statement order of "
                        "transpose and of merge's validation loop; "
-                       "all loops (rename, merge_tensors/bonds, get_bond_axes, as_einsum unification/condensation, tree builder) stay hand-modelled")
+                       "the loops of as_einsum (unification / condensation) and of the tree builder stay hand-modelled (exact correspondence on every network / tree of the run, "
+                       "verified checker on every built tree)")
+    ctx.trusted.append("TN loops (gen/tnloops.py -> Run.GenTNLoops, fail-closed statement-by-statement `ast` walk): get_bond_axes (both loops, the slice count, `break`, the final "
+                       "assertion) is regenerated as a Gallina function and PROVED EQUAL to TNModel.get_bond_axes for all networks and bond ids "
+                       "(C07_source_get_bond_axes_is_model: gen = TNLoops.lit_get_bond_axes by reflexivity, lit = model in TN/TNLoops.v); the same module carries the surgery "
+                       "methods (merge / rename / transpose), whose bridge theorems are C08's; trusted: objects are referenced through (dictionary, key), lists are owned by one object")
     ctx.rules.append("random consistent networks (0-6 tensors, degree<=4, bond dims 1-3, hyper-bonds<=5 legs, multi-edges, self-traces, "
                      "shared open bonds, identity wires, negative ids) with small Gaussian-integer data; open-structure networks (0-2 tensors, several identity wires at "
                      "every position relative to repeated open bonds, all dimensions independently from {1,2,3}); contraction HISTORIES per network (both "
@@ -700,8 +706,9 @@ def run(ctx):
                      "on the same side, rename_bond, transpose, each followed by a contraction again, bond dimensions independent; scaffolds: all binary trees with "
                      "both child orders for n<=3 (thorough: n<=5), random otherwise. non-trivial = >=2 tensors and one of hyper-bond, "
                      "multi-edge, shared open bond, self-trace")
-    ctx.lib(["TN/TNCheck", "TN/TNTreeCheck", "TN/TNConsistentConv", "TN/TNGenBase", "TN/TNRootPermute"])
+    ctx.lib(["TN/TNCheck", "TN/TNTreeCheck", "TN/TNConsistentConv", "TN/TNGenBase", "TN/TNRootPermute", "TN/TNLoops"])
     ctx.translate("GenTN", tn.generate)
+    ctx.translate("GenTNLoops", tnloops.generate_loops)
     ctx.props()
     rng = ctx.rng
     cases = []
